@@ -256,3 +256,10 @@ Fixpoint sinsert_dup (s : String.string) (l : list String.string) : list String.
   | x :: r => if String.leb s x then s :: l else x :: sinsert_dup s r
   end.
 Definition py_sorted_strings (l : list String.string) : list String.string := fold_right sinsert_dup [] l.
+
+(* for x in xs: if ..: return ..   -- the first element for which the body produces a value *)
+Fixpoint py_first {X A} (xs : list X) (f : X -> res (option A)) : res (option A) :=
+  match xs with
+  | [] => Ok None
+  | x :: r => o <- f x ;; match o with Some a => Ok (Some a) | None => py_first r f end
+  end.
